@@ -263,6 +263,20 @@ def _edits():
     def _(v, c):
         v.const_value = ir.Tensor(np.array([9.0], dtype=np.float32), name=v.name)
 
+    @e("value.const_value.metadata_props.clear()", "value")
+    def _(v, c):
+        t = v.const_value
+        if t is None or not t.metadata_props:
+            raise Skip()
+        t.metadata_props.clear()
+
+    @e("value.const_value.metadata_props[k]=", "value")
+    def _(v, c):
+        t = v.const_value
+        if t is None:
+            raise Skip()
+        t.metadata_props["tensor_key"] = "tensor_value"
+
     @e("value.doc_string=", "value")
     def _(v, c):
         v.doc_string = "changed doc"
@@ -414,6 +428,7 @@ class Skip(Exception):
 
 
 EDITS = _edits()
+TENSOR_EDITS = {"value.const_value.metadata_props.clear()", "value.const_value.metadata_props[k]="}
 
 
 def _targets(roots):
@@ -494,6 +509,8 @@ def check_variant(label, vlabel, deep):
     # (iv) every single edit at every object of the clone leaves the original unchanged, and vice versa
     for side in ("clone", "original"):
         for ename, kind, fn in EDITS:
+            if ename in TENSOR_EDITS:
+                continue  # the property lets clones share tensors; these edits are for C03 only
             model, orig, mk = fresh()
             cl = mk()
             ro, rc = _roots_of(orig), _roots_of(cl)
@@ -508,6 +525,10 @@ def check_variant(label, vlabel, deep):
                 reg = Registry()
                 before = snapshot(other, reg, with_bytes=False, skip_ids=outer_ids)
                 mf = _model_fields(other_obj)
+                try:
+                    ser_before = _ser(other_obj)
+                except Exception:  # noqa: BLE001
+                    ser_before = None
                 tgt = _targets(edited)[kind][ti]
                 if id(tgt) in outer_ids:
                     continue
@@ -523,6 +544,15 @@ def check_variant(label, vlabel, deep):
                 if d or _model_fields(other_obj) != mf or set(before) - set(after):
                     out.append((f"edit_of_{side}_changes_the_other_side", (ename, diff_kinds(d), [x[:2] for x in d[:2]])))
                     break
+                if ser_before is not None and not outer_ids:
+                    # the untouched side must also still serialise exactly as before
+                    try:
+                        ser_after = _ser(other_obj)
+                    except Exception as e:  # noqa: BLE001
+                        ser_after = f"raises {type(e).__name__}"
+                    if ser_after != ser_before:
+                        out.append((f"edit_of_{side}_changes_how_the_other_side_serializes", (ename, str(ser_after)[:60] if isinstance(ser_after, str) else "different bytes")))
+                        break
             if out and out[-1][0].startswith("edit_of_"):
                 # one witness per edit kind is enough
                 continue
@@ -570,7 +600,7 @@ def main(tier):
         "states": len(tasks), "transitions": total, "traces_validated_against_impl": total,
         "evaluations": total, "distinct_nontrivial": len(tasks),
         "rule": "a state is (source model, clone variant); a transition is one edit of the catalogue applied at one object of one side with the other side's full snapshot compared before/after",
-        "exhaustive": True, "sources": srcs, "clone_variants": sorted({t[1].split('[')[0] for t in tasks}), "edit_catalogue": [e[0] for e in EDITS],
+        "exhaustive": True, "sources": srcs, "clone_variants": sorted({t[1].split('[')[0] for t in tasks}), "edit_catalogue": [e[0] for e in EDITS if e[0] not in TENSOR_EDITS],
     })
     r.assumptions += ["sources are topologically sorted first (the cloner documents this precondition)", "tensors and (for shallow clones) objects stored in meta may be shared by design; stored-object mutation is checked for deep_copy clones only",
                       "edit depth 1 at every object of either side (a rejected edit counts as an edit)"]
